@@ -435,15 +435,21 @@ theorem closeQ_default_separated (z p : ℚ) (h1 : 1 / 2 ^ 42 ≤ |z - p|)
   · rw [h]; unfold Minreal.eps; norm_num at h1 ⊢; linarith
   · rw [h]; unfold Minreal.sqrtEps; norm_num at h2 ⊢; linarith
 
-theorem closeQI_iff (tol : Option ℚ) (z p : QI) :
+theorem closeQI_iff (tol : Option ℚ) (z p : QI) (h : ∀ t, tol = some t → 0 ≤ t) :
     Minreal.closeQI tol z p = true ↔ Minreal.normSqQI (z - p) < Minreal.tolSqOf tol z := by
   unfold Minreal.closeQI
-  exact decide_eq_true_iff
+  cases tol with
+  | none => exact decide_eq_true_iff
+  | some t => simp [not_lt.mpr (h t rfl)]
+
+/-- a negative explicit tolerance cancels nothing (`abs(z - p) < t` is false). -/
+theorem closeQI_neg (t : ℚ) (ht : t < 0) (z p : QI) : Minreal.closeQI (some t) z p = false := by
+  simp [Minreal.closeQI, ht]
 
 /-- the Gaussian-rational test: a zero cancels a pole equal to it. -/
 theorem closeQI_default_self (z : QI) : Minreal.closeQI none z z = true := by
   have h : (0 : ℚ) < Minreal.eps * Minreal.eps := by unfold Minreal.eps; positivity
-  rw [closeQI_iff]
+  rw [closeQI_iff _ _ _ (by simp)]
   have h0 : Minreal.normSqQI (z - z) = 0 := by simp [Minreal.normSqQI]
   rw [h0]
   show 0 < 1000000 * max (Minreal.eps * Minreal.eps) (Minreal.normSqQI z * Minreal.eps)
@@ -452,7 +458,7 @@ theorem closeQI_default_self (z : QI) : Minreal.closeQI none z z = true := by
 /-- on real roots the Gaussian-rational test is the rational one (`t > 0` compared on squares). -/
 theorem closeQI_real_default (z p : ℚ) :
     Minreal.closeQI none ⟨z, 0⟩ ⟨p, 0⟩ = Minreal.closeQ none z p := by
-  rw [Bool.eq_iff_iff, closeQI_iff, closeQ_iff, tolOf_default]
+  rw [Bool.eq_iff_iff, closeQI_iff _ _ _ (by simp), closeQ_iff, tolOf_default]
   have he : (0 : ℚ) < Minreal.eps := by unfold Minreal.eps; positivity
   have hs : Minreal.sqrtEps * Minreal.sqrtEps = Minreal.eps := by
     unfold Minreal.sqrtEps Minreal.eps; norm_num
